@@ -63,7 +63,8 @@ class CondensedReactionGraph(MolGraph):
         o_colors = {a: int(c) for a,c in zip(other.atoms, o_color_array)}
         s_colors = {a: int(c) for a,c in zip(self.atoms, s_color_array)}
 
-        return any(
+        # an empty mapping (two empty graphs) is a valid isomorphism
+        return next(
                 vf2pp_all_isomorphisms(
                     self,
                     other,
@@ -71,8 +72,9 @@ class CondensedReactionGraph(MolGraph):
                     stereo=False,
                     stereo_change=False,
                     subgraph=False,
-                )
-            )
+                ),
+                None,
+            ) is not None
 
     def add_bond(self, atom1: int, atom2: int, **attr: Any):
         """
